@@ -13,6 +13,8 @@ Property theorems over Model/Pack.lean (+ the regenerated NONE_MAP in Gen/PackCo
   flags_meaning_preserved    _unpackImpl keeps the meaning under any reordering / extension
   flagsOn_canon, extend_auto_keeps_invariant, canon_empty   the "field k has value 2^k" invariant
   flags_pack_unpack_meaning  the flag pieces assembled: pack -> bytes -> unpack -> same names on
+  readerAfter_knows, flags_roundtrip_total   the two former hypotheses (unknown names get added; pigeonhole length) proved:
+                             total statement over `flagsPack` / `flagsUnpack` for any two classes satisfying the invariant
 Helper lemmas are private.
 -/
 import ArmiVerif.Model.Pack
@@ -1345,6 +1347,95 @@ theorem flags_pack_unpack_meaning (w r' : FlagCls) (hw : Canon w) (hr : Canon r'
   exact hmean name
 
 
+/-! ### flags: the former hypotheses proved; total end-to-end statement -/
+
+
+private theorem extendAuto_names : ∀ (l : List String) (c : FlagCls),
+    (c.extendAuto l).fields.map (·.1) = c.fields.map (·.1) ++ l := by
+  intro l
+  induction l with
+  | nil => intro c; simp [FlagCls.extendAuto]
+  | cons n r ih => intro c; simp only [FlagCls.extendAuto]; rw [ih]; simp
+
+private theorem pigeonhole : ∀ (l m : List String), l.Nodup → (∀ s ∈ l, s ∈ m) → l.length ≤ m.length := by
+  intro l
+  induction l with
+  | nil => intro m _ _; simp
+  | cons a r ih =>
+    intro m hnd hsub
+    have ha : a ∈ m := hsub a (List.mem_cons_self ..)
+    have hnd' := List.nodup_cons.mp hnd
+    have hsub' : ∀ s ∈ r, s ∈ m.erase a := by
+      intro s hs
+      have hne : s ≠ a := fun h => hnd'.1 (h ▸ hs)
+      exact (List.mem_erase_of_ne hne).mpr (hsub s (List.mem_cons_of_mem _ hs))
+    have := ih (m.erase a) hnd'.2 hsub'
+    rw [List.length_erase_of_mem ha] at this
+    have hpos : 0 < m.length := List.length_pos_of_mem ha
+    simp only [List.length_cons]; omega
+
+
+private theorem mem_sortedFields (c : FlagCls) (s : String) : s ∈ c.sortedFields ↔ s ∈ c.fields.map (·.1) := by
+  unfold FlagCls.sortedFields
+  exact (List.Perm.map _ (perm_sortByVal c.fields)).mem_iff
+
+/-- the reader class `_unpackImpl` ends up with: unknown names of the stored order are added with `auto()` values -/
+def readerAfter (order : List String) (r : FlagCls) : FlagCls :=
+  let missing := (order.filter (fun n => !(r.fields.map (·.1)).contains n)).eraseDups
+  if missing.isEmpty then r else r.extendAuto missing
+
+/-- (formerly a hypothesis) after `_unpackImpl` has added the unknown names, every stored name is known to the reader -/
+theorem readerAfter_knows (order : List String) (r : FlagCls) :
+    ∀ s ∈ order, s ∈ (readerAfter order r).sortedFields := by
+  intro s hs
+  rw [mem_sortedFields]
+  unfold readerAfter
+  simp only []
+  by_cases hin : s ∈ r.fields.map (·.1)
+  · split
+    · exact hin
+    · rw [extendAuto_names]; exact List.mem_append_left _ hin
+  · have hmiss : s ∈ (order.filter (fun n => !(r.fields.map (·.1)).contains n)).eraseDups := by
+      rw [List.mem_eraseDups, List.mem_filter]
+      exact ⟨hs, by simpa using hin⟩
+    split
+    · rename_i hemp
+      rw [List.isEmpty_iff] at hemp
+      rw [hemp] at hmiss; simp at hmiss
+    · rw [extendAuto_names]; exact List.mem_append_right _ hmiss
+
+/-- **Flags, totally end to end on the model of `_packImpl` / `_unpackImpl`**: for ANY writer class `w` and reader class
+`r` that satisfy the invariant (all-`auto()` classes and their `extend`ed versions do) — fields ordered, numbered and
+extended independently, the reader possibly lacking some of the writer's flags — and any value over the writer's
+fields: packing succeeds, unpacking succeeds and extends the reader by exactly the unknown names, the extended reader
+still satisfies the invariant, and the unpacked value has exactly the written flag NAMES on. The only hypotheses left
+are the invariant and that the writer's names are pairwise distinct (a Python class cannot have two attributes of one name). -/
+theorem flags_roundtrip_total (w r : FlagCls) (hw : Canon w) (hr : Canon r) (hnd : (w.fields.map (·.1)).Nodup)
+    (v : Nat) (hv : v < 2 ^ w.fields.length) :
+    ∃ rows u, flagsPack w [v] = some rows ∧
+      flagsUnpack w.sortedFields r rows = some (readerAfter w.sortedFields r, [u]) ∧
+      Canon (readerAfter w.sortedFields r) ∧
+      ∀ name, name ∈ flagsOn (readerAfter w.sortedFields r) u ↔ name ∈ flagsOn w v := by
+  have hcan : Canon (readerAfter w.sortedFields r) := by
+    unfold readerAfter
+    simp only []
+    split
+    · exact hr
+    · exact extend_auto_keeps_invariant _ _ hr
+  have hsub := readerAfter_knows w.sortedFields r
+  have hlen : w.fields.length ≤ (readerAfter w.sortedFields r).fields.length := by
+    have h1 := pigeonhole (w.fields.map (·.1)) ((readerAfter w.sortedFields r).fields.map (·.1)) hnd
+      (fun s hs => (mem_sortedFields _ s).mp (hsub s ((mem_sortedFields w s).mpr hs)))
+    simpa using h1
+  obtain ⟨bytes, u, hb, _, hu, hmean⟩ := flags_pack_unpack_meaning w _ hw hcan hsub hlen v hv
+  refine ⟨[bytes], u, ?_, ?_, hcan, hmean⟩
+  · simp [flagsPack, hb]
+  · have : flagsUnpack w.sortedFields r [bytes]
+        = (([bytes].mapM (fun row => unpackVal w.sortedFields (readerAfter w.sortedFields r).sortedFields (fromBytes row))).map
+            (fun vs => (readerAfter w.sortedFields r, vs))) := rfl
+    rw [this]
+    simp [hu]
+
 /-! ### non-vacuity: concrete inputs satisfying the hypotheses, and witnesses at the excluded points -/
 
 /-- the ragged strategy is taken and `jagged_roundtrip` applies (scalar, list, None, empty, array) -/
@@ -1390,6 +1481,10 @@ example : unpackVal ["A", "B", "C"] ["C", "X", "A", "B"] 5 = some 5 ∧ unpackVa
   decide +kernel
 
 example : Canon (FlagCls.extendAuto ⟨[], 1⟩ ["A", "B", "C"]) := extend_auto_keeps_invariant _ _ canon_empty
+
+/-- `flags_roundtrip_total` on a reader that lacks flag B and orders the others differently: B is added, meaning kept -/
+example : (flagsUnpack ["A", "B", "C"] ⟨[("C", 1), ("A", 2)], 4⟩ [[6]]).map (fun p => (p.1.fields, p.2.map (flagsOn p.1))) =
+    some ([("C", 1), ("A", 2), ("B", 4)], [["C", "B"]]) := by decide +kernel
 
 /-- excluded point of `Canon`: explicit values 1 and 4 — the remap has no ordinal for bit 2 (KeyError; known finding) -/
 example : unpackVal ["A", "B"] ["B", "A"] 4 = Option.none := by decide +kernel
